@@ -47,6 +47,7 @@ From V Require Import Calc.TaskBoxDefs.
 From V Require Import Proto.EventV2Defs.
 From V Require Import Arith.PolicyDefs.
 From V Require Import Calc.TraitsMultiDefs.
+From V Require Import Proto.RegElectDefs.
 From V Require Import Proto.EpollTimerDefs.
 Extraction Blacklist List String Int.
 Cd "../ocaml".
@@ -295,6 +296,16 @@ Extraction "model.ml"
   TraitsMulti.sequence_obs
   TraitsMulti.sound_obs
   TraitsMulti.sound_beh
+  RegElect.step
+  RegElect.init
+  RegElect.delivered
+  RegElect.quiescent
+  RegElect.late
+  RegElect.badreg
+  RegElect.destroyed
+  RegElect.own
+  RegElect.cbk
+  RegElect.registered
   TraitsMulti.tr_stop_when
   TraitsMulti.rt_stop_when
   TraitsMulti.stop_when_obs
